@@ -191,10 +191,10 @@ def Helper.Input.get_target_cell_id (fs : FloatSem F) (self : Obj F) : Res F :=
   (pCall1 (Helper.Input._get_cell_id fs self) (attr self "target"))
 
 def Helper.Input.get_segment_id (fs : FloatSem F) (self : Obj F) : Res F :=
-  (pIfElse fs (attr self "segment_id") (pInt fs (attr self "segment_id")) (pint 0))
+  (pIfElse fs (pIsNotNone (attr self "segment_id")) (pInt fs (attr self "segment_id")) (pint 0))
 
 def Helper.Input.get_fraction_along (fs : FloatSem F) (self : Obj F) : Res F :=
-  (pIfElse fs (attr self "fraction_along") (pFloat fs (attr self "fraction_along")) (pnum fs.half))
+  (pIfElse fs (pIsNotNone (attr self "fraction_along")) (pFloat fs (attr self "fraction_along")) (pnum fs.half))
 
 def Helper.InputW._get_cell_id (fs : FloatSem F) (self : Obj F) (id_string : Res F) : Res F :=
   (pIfElse fs (pIn ['['] id_string) (pInt fs (pIndex 0 (pSplit ']' (pIndex 1 (pSplit '[' id_string))))) (pInt fs (pIndex 2 (pSplit '/' id_string))))
@@ -206,10 +206,10 @@ def Helper.InputW.get_target_cell_id (fs : FloatSem F) (self : Obj F) : Res F :=
   (pCall1 (Helper.InputW._get_cell_id fs self) (attr self "target"))
 
 def Helper.InputW.get_segment_id (fs : FloatSem F) (self : Obj F) : Res F :=
-  (pIfElse fs (attr self "segment_id") (pInt fs (attr self "segment_id")) (pint 0))
+  (pIfElse fs (pIsNotNone (attr self "segment_id")) (pInt fs (attr self "segment_id")) (pint 0))
 
 def Helper.InputW.get_fraction_along (fs : FloatSem F) (self : Obj F) : Res F :=
-  (pIfElse fs (attr self "fraction_along") (pFloat fs (attr self "fraction_along")) (pnum fs.half))
+  (pIfElse fs (pIsNotNone (attr self "fraction_along")) (pFloat fs (attr self "fraction_along")) (pnum fs.half))
 
 def Helper.ExplicitInput._get_cell_id (fs : FloatSem F) (self : Obj F) (id_string : Res F) : Res F :=
   (pIfElse fs (pIn ['['] id_string) (pInt fs (pIndex 0 (pSplit ']' (pIndex 1 (pSplit '[' id_string))))) (pInt fs (pIndex 2 (pSplit '/' id_string))))
@@ -218,10 +218,10 @@ def Helper.ExplicitInput.get_target_cell_id (fs : FloatSem F) (self : Obj F) : R
   (pIfElse fs (pIn ['['] (attr self "target")) (pInt fs (pIndex 0 (pSplit ']' (pIndex 1 (pSplit '[' (attr self "target")))))) (pInt fs (pIndex 2 (pSplit '/' (attr self "target")))))
 
 def Helper.ExplicitInput.get_segment_id (fs : FloatSem F) (self : Obj F) : Res F :=
-  (pIfElse fs (attr self "segment_id") (pInt fs (attr self "segment_id")) (pint 0))
+  (pint 0)
 
 def Helper.ExplicitInput.get_fraction_along (fs : FloatSem F) (self : Obj F) : Res F :=
-  (pIfElse fs (attr self "fraction_along") (pFloat fs (attr self "fraction_along")) (pnum fs.half))
+  (pnum fs.half)
 
 def Helper.SynapticConnection._get_cell_id (fs : FloatSem F) (self : Obj F) (ref : Res F) : Res F :=
   (pIfElse fs (pIn ['['] ref) (pInt fs (pIndex 0 (pSplit ']' (pIndex 1 (pSplit '[' ref))))) (pInt fs (pIndex 2 (pSplit '/' ref))))
@@ -453,10 +453,10 @@ def Nml.Input.get_target_cell_id (fs : FloatSem F) (self : Obj F) : Res F :=
   (pCall1 (Nml.Input._get_cell_id fs self) (attr self "target"))
 
 def Nml.Input.get_segment_id (fs : FloatSem F) (self : Obj F) : Res F :=
-  (pIfElse fs (attr self "segment_id") (pInt fs (attr self "segment_id")) (pint 0))
+  (pIfElse fs (pIsNotNone (attr self "segment_id")) (pInt fs (attr self "segment_id")) (pint 0))
 
 def Nml.Input.get_fraction_along (fs : FloatSem F) (self : Obj F) : Res F :=
-  (pIfElse fs (attr self "fraction_along") (pFloat fs (attr self "fraction_along")) (pnum fs.half))
+  (pIfElse fs (pIsNotNone (attr self "fraction_along")) (pFloat fs (attr self "fraction_along")) (pnum fs.half))
 
 def Nml.InputW._get_cell_id (fs : FloatSem F) (self : Obj F) (id_string : Res F) : Res F :=
   (pIfElse fs (pIn ['['] id_string) (pInt fs (pIndex 0 (pSplit ']' (pIndex 1 (pSplit '[' id_string))))) (pInt fs (pIndex 2 (pSplit '/' id_string))))
@@ -468,10 +468,10 @@ def Nml.InputW.get_target_cell_id (fs : FloatSem F) (self : Obj F) : Res F :=
   (pCall1 (Nml.InputW._get_cell_id fs self) (attr self "target"))
 
 def Nml.InputW.get_segment_id (fs : FloatSem F) (self : Obj F) : Res F :=
-  (pIfElse fs (attr self "segment_id") (pInt fs (attr self "segment_id")) (pint 0))
+  (pIfElse fs (pIsNotNone (attr self "segment_id")) (pInt fs (attr self "segment_id")) (pint 0))
 
 def Nml.InputW.get_fraction_along (fs : FloatSem F) (self : Obj F) : Res F :=
-  (pIfElse fs (attr self "fraction_along") (pFloat fs (attr self "fraction_along")) (pnum fs.half))
+  (pIfElse fs (pIsNotNone (attr self "fraction_along")) (pFloat fs (attr self "fraction_along")) (pnum fs.half))
 
 def Nml.ExplicitInput._get_cell_id (fs : FloatSem F) (self : Obj F) (id_string : Res F) : Res F :=
   (pIfElse fs (pIn ['['] id_string) (pInt fs (pIndex 0 (pSplit ']' (pIndex 1 (pSplit '[' id_string))))) (pInt fs (pIndex 2 (pSplit '/' id_string))))
@@ -480,10 +480,10 @@ def Nml.ExplicitInput.get_target_cell_id (fs : FloatSem F) (self : Obj F) : Res 
   (pIfElse fs (pIn ['['] (attr self "target")) (pInt fs (pIndex 0 (pSplit ']' (pIndex 1 (pSplit '[' (attr self "target")))))) (pInt fs (pIndex 2 (pSplit '/' (attr self "target")))))
 
 def Nml.ExplicitInput.get_segment_id (fs : FloatSem F) (self : Obj F) : Res F :=
-  (pIfElse fs (attr self "segment_id") (pInt fs (attr self "segment_id")) (pint 0))
+  (pint 0)
 
 def Nml.ExplicitInput.get_fraction_along (fs : FloatSem F) (self : Obj F) : Res F :=
-  (pIfElse fs (attr self "fraction_along") (pFloat fs (attr self "fraction_along")) (pnum fs.half))
+  (pnum fs.half)
 
 def Nml.SynapticConnection._get_cell_id (fs : FloatSem F) (self : Obj F) (ref : Res F) : Res F :=
   (pIfElse fs (pIn ['['] ref) (pInt fs (pIndex 0 (pSplit ']' (pIndex 1 (pSplit '[' ref))))) (pInt fs (pIndex 2 (pSplit '/' ref))))
